@@ -70,7 +70,19 @@ func runCheck(P *Program, verif, prop, tier string, seed int, verbose bool, t0 t
 	if tier == "thorough" {
 		timeout = 120 * time.Second
 	}
+	for _, o := range obls {
+		if known.match(prop, o.Name) != nil {
+			o.noRetry = true // expected to fail: recorded finding
+		}
+	}
+	tGen := time.Since(t0).Seconds()
 	dischargeAll(obls, tmp, timeout, tier, 7)
+	tSolve := time.Since(t0).Seconds() - tGen
+	defer func() {
+		if os.Getenv("GOVC_TIMING") != "" {
+			fmt.Fprintf(os.Stderr, "timing: load+generate %.1fs, discharge %.1fs, rest %.1fs\n", tGen, tSolve, time.Since(t0).Seconds()-tGen-tSolve)
+		}
+	}()
 
 	// verdicts
 	replayDir := filepath.Join(verif, "replays", prop)
